@@ -110,4 +110,20 @@ META = {
          'schedules (the theorem covers all schedules of the scheduler logic; the pools are runtime); the SMC instance is validated '
          'by the correspondence runs and the generic theorem hypothesis (proposals drawn per submission from the round stream, '
          'pending cancelled at round end), not instantiated in Coq; meta submission_index is schedule dependent by design.'),
+ 'C07': dict(
+    text='Theorems (Properties/C07.v) over the executable model of the SMC round structure (coq/Sched/Smc.v: set_objective, update, '
+         '_init_new_round, _extract_population, _update_objective over the scheduler and one rejection sampler per round): within a '
+         'round the proposals handed to a batch index are submission-time independent, hence by C04 every schedule and every '
+         'max_parallel give the sequential result; the reported n_batches / n_sim are the totals over all rounds; every returned '
+         'population is the extracted result of a rejection round run with that round threshold (so all C01 theorems apply): every '
+         'particle discrepancy is <= the threshold in force for its round, rows ascending, at most n_samples rows. Correspondence on '
+         'every run: real SMC.sample (threshold lists, quantile lists, continued sampling, max_parallel 1-3) with an OutputPool as '
+         'the independent record; per population rows, threshold, n_sim, n_batches equal the model bit for bit (incl. the binary64 '
+         'batch estimator); weights (1 for the first population, prior density / mixture density of the previous population with '
+         'its weights and covariance), covariance = 2 x weighted sample variance, selected quantile thresholds and prior positivity '
+         'are recomputed independently with scipy (relative tolerance 1e-8/1e-9).',
+    note=COMMON_NOTE + 'PrimFloat primitives appear through the rejection model. Partial: the weight, covariance and quantile clauses '
+         'are numeric comparisons against an independent recomputation (the formulas themselves are proved in C13: mixture density, '
+         'weighted variance, weighted quantile); "exactly n particles, all simulated draws" rests on the rejection round stopping only '
+         'with n acceptable draws (C01 estimator theorem on a finite domain + correspondence); scipy densities/samplers are oracles.'),
 }
